@@ -81,6 +81,7 @@ var c12Leaf = map[string]string{
 	"return string(out.Bytes()), nil":                                                  "returnOut",
 	"if closer, ok := w.z.(interface{ Close() error }); ok { return closer.Close() }":  "closeIfCloser",
 	"if closer, ok := w.z.(interface { Close() error }); ok { return closer.Close() }": "closeIfCloser",
+	"if closer, ok := w.z.(io.Closer); ok { return closer.Close() }":                   "closeIfCloser",
 	"if mediatype := w.ResponseWriter.Header().Get(\"Content-Type\"); mediatype != \"\" { w.mediatype = mediatype }": "pickContentType",
 	"if err := mw.Close(); err != nil { errorFunc(w, r, err) return }":                                               "closeMwReportErr",
 	"if err := m.Minify(mediatype, out, buffer.NewReader(parse.Copy(v))); err != nil { return v, err }":              "minifyBufOrReturnInput true",
@@ -650,6 +651,53 @@ func (c *c12Walker) list(stmts []ast.Stmt) []string {
 		}
 		if a, ok := c12Leaf[txt]; ok {
 			out = append(out, a)
+			continue
+		}
+		// one-statement forms of the goroutine bodies: `pw.CloseWithError(<call>)` is `if err := <call>; err != nil { pw.CloseWithError(err) }
+		// else { pw.Close() }` because io.PipeWriter.Close is CloseWithError(nil) (standard library, trusted base); `z.err = <call>` is
+		// `if err := <call>; err != nil { z.err = err }` because z.err is nil in the writer mkWriter made and this is its only store
+		for _, f := range [][3]string{{"pw.CloseWithError(", ")", "closeWithErrorElseClose"}, {"z.err = ", "", "storeErr"}} {
+			if strings.HasPrefix(txt, f[0]) && strings.HasSuffix(txt, f[1]) {
+				if m := c12CallRe.FindStringSubmatch("err := " + txt[len(f[0]):len(txt)-len(f[1])]); m != nil {
+					dst, src := m[2], m[3]
+					if m[4] != "" {
+						dst, src = "rw", m[4]
+					}
+					out = append(out, fmt.Sprintf("callMinify %s %s", leanStr(dst), leanStr(src)), f[2])
+					txt = ""
+					break
+				}
+			}
+		}
+		if txt == "" {
+			continue
+		}
+		// `_, params, minifier := w.m.Match(w.mediatype)` as its own statement followed by the two-armed if, either arm first
+		if txt == "_, params, minifier := w.m.Match(w.mediatype)" && i+1 < len(stmts) {
+			if st, ok := stmts[i+1].(*ast.IfStmt); ok && st.Init == nil {
+				if els, ok := st.Else.(*ast.BlockStmt); ok {
+					yes, no := st.Body.List, els.List
+					cond := c.text(st.Cond)
+					if cond == "minifier == nil" {
+						yes, no, cond = no, yes, "minifier != nil"
+					}
+					if cond == "minifier != nil" {
+						out = append(out, "matchBegin")
+						out = append(out, c.list(yes)...)
+						out = append(out, "matchElse")
+						out = append(out, c.list(no)...)
+						out = append(out, "matchEnd")
+						i++
+						continue
+					}
+				}
+			}
+		}
+		// the closer assertion written with an early return
+		if (txt == "closer, ok := w.z.(io.Closer)" || txt == "closer, ok := w.z.(interface{ Close() error })" || txt == "closer, ok := w.z.(interface { Close() error })") &&
+			i+2 < len(stmts) && c.text(stmts[i+1]) == "if !ok { return nil }" && c.text(stmts[i+2]) == "return closer.Close()" {
+			out = append(out, "closeIfCloser", "returnNil")
+			i += 2
 			continue
 		}
 		switch st := s.(type) {
